@@ -82,6 +82,9 @@ def check_sandwich(ctx: Ctx, init: FuncInfo, spec: Dict):
     subset = [e for e in flat if "in~" in e[1:]]
     ctx.check(not subset, "TS-PREP", init, "no gate layer is restricted to a run-time-selected subset of the qubits", "", f"{_show(subset)}: the loop visits only the qubits passing a run-time filter - the Hadamard sandwich must cover every input qubit for every f", init.node)
     n_or = sum(1 for e in flat if e[0] == "ORACLE")
+    if n_or == 0:
+        # the constructor applies the black box through code the typestate program cannot follow: not a verdict
+        raise AnchorError(init.short, f"no black-box application found among the circuit operations of the constructor ({_show(flat)}): the circuit is built by code outside the tables")
     ctx.check(n_or == 1, "TS-PREP", init, "exactly one black-box application", f"events: {_show(flat)}", f"{n_or} black-box applications in {_show(flat)}", init.node)
     if st is None:
         return
